@@ -1723,6 +1723,9 @@ size_t ZSTD_DCtx_loadDictionary_advanced(ZSTD_DCtx* dctx,
                                          ZSTD_dictContentType_e dictContentType)
 {
     RETURN_ERROR_IF(dctx->streamStage != zdss_init, stage_wrong, "");
+    /* a context in caller-provided memory never allocates, and has no allocator to do it with */
+    RETURN_ERROR_IF(dctx->staticSize && dict && dictSize != 0, memory_allocation,
+                    "static DCtx can't allocate a dictionary : reference a static DDict instead");
     ZSTD_clearDict(dctx);
     if (dict && dictSize != 0) {
         dctx->ddictLocal = ZSTD_createDDict_advanced(dict, dictSize, dictLoadMethod, dictContentType, dctx->customMem);
